@@ -2,9 +2,9 @@
 # try_refactor.sh <worktree> <R1..> <Cxx> [more Cxx..]  - run ./check against a behaviour-preserving refactoring; exit 1 of a check = FALSE ALARM
 WT="$1"; X="$2"; shift 2
 cd "$WT" || exit 2
-git checkout -- . ; git apply "seed_out3/$X.patch.diff" || { echo "patch does not apply"; exit 2; }
+git checkout -- . ; git apply "${REF_DIR:-seed_out3}/$X.patch.diff" || { echo "patch does not apply"; exit 2; }
 for ID in "$@"; do
-  cd /verif && VERIF_REPO="$WT" timeout 3000 ./check "$ID" --tier quick > "$WT/seed_out3/$X.check_$ID.log" 2>&1; e=$?
-  echo "$X $ID exit=$e $(grep -E '^VIOLATION|^UNDECIDED' "$WT/seed_out3/$X.check_$ID.log" | head -2 | cut -c1-260)"
+  cd /verif && VERIF_REPO="$WT" timeout 3000 ./check "$ID" --tier quick > "$WT/${REF_DIR:-seed_out3}/$X.check_$ID.log" 2>&1; e=$?
+  echo "$X $ID exit=$e $(grep -E '^VIOLATION|^UNDECIDED' "$WT/${REF_DIR:-seed_out3}/$X.check_$ID.log" | head -2 | cut -c1-260)"
 done
 cd "$WT" && git checkout -- .
